@@ -1204,7 +1204,16 @@ func main() {
 		ncase++
 		run.Comment(fmt.Sprintf("case %d", ncase))
 		do("reset")
+		t2done := false
 		for _, i := range idx {
+			// precondition of the property (noLockAfterFinish): no pessimistic lock request of a transaction reaches a
+			// key after the transaction was committed or rolled back on it
+			if i == 2 && t2done {
+				continue
+			}
+			if i == 6 || i == 8 || i == 11 || i == 13 {
+				t2done = true
+			}
 			do(alpha[i])
 		}
 		for _, t := range tail {
